@@ -193,9 +193,8 @@ harness!(name=c18_binomial, prop=C18, mode=R, kind=normal, tier=quick, unwind=8,
     crate::vclose!(d.var(), f.var(), 1e-12, "variance after setters");
     crate::vclose!(e.var(), f.var(), 1e-12, "variance after update");
 });
-// @bound c18_chi2_: dof 1..4 before and after (instances); the Gamma/Normal rejection samplers are explored on the paths that terminate within the unwinding bound (unwinding assertions off for this obligation: longer rejection runs are outside the claim)
-// @claim c18_chi2_: set_dof / update give the fresh object's density, moments and - from the same recorded stream - the same draw
-// @nounwindassert c18_chi2_: on
+// @bound c18_chi2_: dof 1..4 before and after (instances)
+// @claim c18_chi2_: set_dof / update give the fresh object's density and moments (R); the draw is c18_chi2draw_
 // @cap c18_chi2_: 200
 fn chi2(k0: usize, k1: usize, via_update: bool) {
     let mut d = ChiSquared::new(k0);
@@ -210,14 +209,134 @@ fn chi2(k0: usize, k1: usize, via_update: bool) {
     crate::vclose!(d.pdf(x), f.pdf(x), 1e-12, "pdf after set_dof");
     crate::vclose!(d.mean(), f.mean(), 0.0, "mean after set_dof");
     crate::vclose!(d.var(), f.var(), 0.0, "variance after set_dof");
+}
+harness_g!(name=c18_chi2_set_1_3, prop=C18, mode=R, kind=normal, tier=quick, unwind=8, { chi2(1, 3, false) });
+harness_g!(name=c18_chi2_upd_4_2, prop=C18, mode=R, kind=normal, tier=quick, unwind=8, { chi2(4, 2, true) });
+
+// @bound c18_chi2draw_: dof before/after as per instance; every RNG stream whose raw 64-bit outputs select the instance's ziggurat layer (low 7 bits; layers 0, 5, 40, 90, 127 over the instances) and on which both objects' rejection loops (ziggurat normal, Marsaglia-Tsang) finish within one further iteration (unwinding assertions off: longer rejection runs are outside the claim); floating-point operations opaque (U), so the obligation is that both objects perform the same operations on the same bits
+// @claim c18_chi2draw_: after set_dof / update the object draws, from the same recorded stream, the bit-identical value a freshly constructed ChiSquared draws, and consumes the same number of RNG outputs
+// @nounwindassert c18_chi2draw_: on
+// @cap c18_chi2draw_: 120
+// @modes c18_chi2draw_: U
+/// restrict the raw 64-bit outputs of the first 12 stream positions to ziggurat layer `layer` (their low
+/// 7 bits select the layer of Normal::sample; with a concrete layer its three table lookups are constants)
+fn pin_layer(layer: u64) {
+    // unrolled by hand: the unwinding bound of these harnesses is 2
+    vassume!(alea::shim_peek_u64(0) & 0x7F == layer);
+    vassume!(alea::shim_peek_u64(1) & 0x7F == layer);
+    vassume!(alea::shim_peek_u64(2) & 0x7F == layer);
+    vassume!(alea::shim_peek_u64(3) & 0x7F == layer);
+    vassume!(alea::shim_peek_u64(4) & 0x7F == layer);
+    vassume!(alea::shim_peek_u64(5) & 0x7F == layer);
+    vassume!(alea::shim_peek_u64(6) & 0x7F == layer);
+    vassume!(alea::shim_peek_u64(7) & 0x7F == layer);
+    vassume!(alea::shim_peek_u64(8) & 0x7F == layer);
+    vassume!(alea::shim_peek_u64(9) & 0x7F == layer);
+    vassume!(alea::shim_peek_u64(10) & 0x7F == layer);
+    vassume!(alea::shim_peek_u64(11) & 0x7F == layer);
+}
+fn chi2_draw(k0: usize, k1: usize, via_update: bool, layer: u64) {
+    pin_layer(layer);
+    let mut d = ChiSquared::new(k0);
+    if via_update {
+        d.update(&[k1 as f64]);
+    } else {
+        d.set_dof(k1);
+    }
+    let f = ChiSquared::new(k1);
     alea::shim_set_cursor(0);
     let s1 = d.sample();
+    let c1 = alea::shim_cursor();
     alea::shim_set_cursor(0);
     let s2 = f.sample();
-    crate::vclose!(s1, s2, 1e-9 * (1.0 + s2.abs()), "draw from the same stream after set_dof");
+    let c2 = alea::shim_cursor();
+    crate::vbits!(s1, s2, "draw from the same stream after a dof change {} -> {}", k0, k1);
+    vassert!(c1 == c2, "RNG outputs consumed: {} vs {}", c1, c2);
 }
-harness!(name=c18_chi2_set_1_3, prop=C18, mode=R, kind=normal, tier=quick, unwind=3, { chi2(1, 3, false) });
-harness!(name=c18_chi2_upd_4_2, prop=C18, mode=R, kind=normal, tier=quick, unwind=3, { chi2(4, 2, true) });
+harness!(name=c18_chi2draw_set_2_3, prop=C18, mode=U, kind=normal, tier=thorough, unwind=2, { chi2_draw(2, 3, false, 5) });
+harness!(name=c18_chi2draw_set_4_2, prop=C18, mode=U, kind=normal, tier=thorough, unwind=2, { chi2_draw(4, 2, false, 127) });
+harness!(name=c18_chi2draw_upd_2_5, prop=C18, mode=U, kind=normal, tier=thorough, unwind=2, { chi2_draw(2, 5, true, 40) });
+harness!(name=c18_chi2draw_set_3_1, prop=C18, mode=U, kind=normal, tier=thorough, unwind=2, { chi2_draw(3, 1, false, 90) });
+harness!(name=c18_chi2draw_upd_1_4, prop=C18, mode=U, kind=normal, tier=thorough, unwind=2, { chi2_draw(1, 4, true, 5) });
+
+// @bound c18_betadraw_: concrete shapes before/after as per instance (both branches of the Gamma sampler: shape < 1 and >= 1); streams and unwinding as for c18_chi2draw_
+// @claim c18_betadraw_: after set_alpha / set_beta / update a Beta object draws, from the same recorded stream, the bit-identical value a freshly constructed Beta draws (its two Gamma generators were rebuilt), consuming the same number of RNG outputs (U)
+// @nounwindassert c18_betadraw_: on
+// @cap c18_betadraw_: 60
+// @modes c18_betadraw_: U
+fn beta_draw(a0: f64, b0: f64, a1: f64, b1: f64, how: u8, layer: u64) {
+    pin_layer(layer);
+    let mut d = Beta::new(a0, b0);
+    match how {
+        0 => { d.set_alpha(a1); d.set_beta(b1); }
+        1 => { d.set_beta(b1).set_alpha(a1); }
+        _ => { d.update(&[a1, b1]); }
+    }
+    let f = Beta::new(a1, b1);
+    alea::shim_set_cursor(0);
+    let s1 = d.sample();
+    let c1 = alea::shim_cursor();
+    alea::shim_set_cursor(0);
+    let s2 = f.sample();
+    let c2 = alea::shim_cursor();
+    crate::vbits!(s1, s2, "Beta draw from the same stream after a parameter change");
+    vassert!(c1 == c2, "RNG outputs consumed: {} vs {}", c1, c2);
+}
+harness!(name=c18_betadraw_set_ab, prop=C18, mode=U, kind=normal, tier=thorough, unwind=2, { beta_draw(2.0, 3.0, 1.5, 4.0, 0, 17) });
+harness!(name=c18_betadraw_set_ba, prop=C18, mode=U, kind=normal, tier=thorough, unwind=2, { beta_draw(1.0, 1.0, 2.5, 1.25, 1, 127) });
+harness!(name=c18_betadraw_upd, prop=C18, mode=U, kind=normal, tier=thorough, unwind=2, { beta_draw(2.0, 2.0, 3.0, 5.0, 2, 63) });
+harness!(name=c18_betadraw_small, prop=C18, mode=U, kind=normal, tier=thorough, unwind=2, { beta_draw(2.0, 3.0, 0.5, 0.75, 0, 17) });
+
+// ---- derived sampler state (Beta, ChiSquared): representation equality with a fresh object
+// @bound c18_state_: every parameter bit pattern accepted by the constructor / setter (parameters opaque, U; the validity tests are the code's own comparisons); ChiSquared: every dof in 1..2^53
+// @claim c18_state_: after a setter / update the object's memory representation (all fields, including the private generators the sampler uses) is bit-identical to a freshly constructed object's. Both types are Copy with f64/usize fields only, so equal representations behave identically on every stream, with no bound on the rejection loops. This is a sufficient condition (an implementation may keep behaviourally irrelevant state): unsat decides the clause, sat is reported as undecided and the bounded same-stream draws (c18_chi2draw_, c18_betadraw_) decide
+// @sufficient c18_state_: on
+// @fallback c18_state_beta_: c18_betadraw_set_ab c18_betadraw_set_ba c18_betadraw_upd
+// @fallback c18_state_chi2_: c18_chi2draw_set_2_3 c18_chi2draw_upd_2_5
+// @modes c18_state_: U
+fn same_state<T: Copy>(a: &T, b: &T, what: &'static str) {
+    let n = core::mem::size_of::<T>() / 8;
+    let (pa, pb) = (a as *const T as *const u64, b as *const T as *const u64);
+    let mut i = 0;
+    while i < n {
+        let (x, y) = unsafe { (core::ptr::read_unaligned(pa.add(i)), core::ptr::read_unaligned(pb.add(i))) };
+        vassert!(x == y, "{}: word {} of the representation differs: {:#x} vs {:#x}", what, i, x, y);
+        i += 1;
+    }
+}
+fn beta_state(how: u8) {
+    let (a0, b0, a1, b1) = (inp::f64(0), inp::f64(1), inp::f64(2), inp::f64(3));
+    vassume!(!(a0 <= 0.0 || b0 <= 0.0));
+    vassume!(!(a1 <= 0.0 || b1 <= 0.0));
+    let mut d = Beta::new(a0, b0);
+    let f = match how {
+        0 => { d.set_alpha(a1); Beta::new(a1, b0) }
+        1 => { d.set_beta(b1); Beta::new(a0, b1) }
+        2 => { d.set_beta(b1).set_alpha(a1); Beta::new(a1, b1) }
+        _ => { d.update(&[a1, b1]); Beta::new(a1, b1) }
+    };
+    same_state(&d, &f, "Beta");
+}
+harness!(name=c18_state_beta_alpha, prop=C18, mode=U, kind=normal, tier=quick, unwind=16, { beta_state(0) });
+harness!(name=c18_state_beta_beta, prop=C18, mode=U, kind=normal, tier=quick, unwind=16, { beta_state(1) });
+harness!(name=c18_state_beta_both, prop=C18, mode=U, kind=normal, tier=quick, unwind=16, { beta_state(2) });
+harness!(name=c18_state_beta_update, prop=C18, mode=U, kind=normal, tier=quick, unwind=16, { beta_state(3) });
+fn chi2_state(via_update: bool) {
+    let (k0, k1) = (inp::u64(0) as usize, inp::u64(1) as usize);
+    vassume!(k0 > 0 && k0 < (1 << 53) && k1 > 0 && k1 < (1 << 53));
+    let mut d = ChiSquared::new(k0);
+    if via_update {
+        d.update(&[k1 as f64]);
+    } else {
+        d.set_dof(k1);
+    }
+    let f = ChiSquared::new(k1);
+    same_state(&d, &f, "ChiSquared");
+}
+// @modes c18_state_chi2_: B
+// @cap c18_state_chi2_: 150
+harness!(name=c18_state_chi2_set, prop=C18, mode=B, kind=normal, tier=quick, unwind=9, { chi2_state(false) });
+harness!(name=c18_state_chi2_update, prop=C18, mode=B, kind=normal, tier=quick, unwind=9, { chi2_state(true) });
 
 // @claim c18_reject_: invalid values are rejected by a panic in setters and bulk updates alike (so no object ever holds an out-of-domain parameter)
 fn reject(which: u8) {
